@@ -44,6 +44,6 @@ def cleanup(root):
 
 def project_payload(proj, runs):
     """What is stored for --replay."""
-    return {"project": {k: proj[k] for k in ("name", "files", "sources", "opts", "desc")},
+    return {"project": {k: proj[k] for k in ("name", "files", "sources", "opts", "desc", "shape") if k in proj},
             "runs": [{"label": r["label"], "args": r["args"], "rc": r["rc"],
                       "findings": [f["key"] for f in r["findings"]], "stray": r["stray"]} for r in runs]}
